@@ -407,3 +407,43 @@ def m6_product_enumeration(ctx) -> None:
         elif ok is False:
             ctx.violation("M6", f, f"CartesianProduct.{mname} must run over utils.compositions({n}, len({prov}), self.min_sizes, self.max_sizes) and, for each, over "
                           f"params_value_pairs_combinations(sizes, {prov}), keyed by self._new_param(...)", construct=f"CartesianProduct.{mname} enumeration")
+
+
+def m7_equivalence_predicate(ctx) -> None:
+    """`Rule.is_equivalence` is the conjunction of three tests -- the strategy says its rules can
+    be equivalences, exactly one child is not empty, the constructor can be an equivalence -- and
+    `non_empty_children` filters `self.children` itself, position by position (a child that
+    occurs twice counts twice: S -> X x X is not an equivalence)."""
+    P = ctx.P
+    m = P.need_method("Rule", "is_equivalence", own=True)
+    f = m.node
+    ctx.analysed(m)
+    rets = [r for r in C.returns_of(f) if r.value is not None]
+    if len(rets) != 1:
+        raise AnalysisError("M7: Rule.is_equivalence no longer answers with one expression")
+    v = D.expanded(f, rets[0].value)
+    conj = [norm(x) for x in (v.values if isinstance(v, ast.BoolOp) and isinstance(v.op, ast.And) else [v])]
+    need = {"self.strategy.can_be_equivalent()": "the strategy's own veto (a size-shifting one-child strategy is no equivalence)",
+            "self.constructor.can_be_equivalent()": "the constructor's veto (two statistics poured into one)"}
+    for t, why in need.items():
+        if t in conj:
+            ctx.ok("M7", f"Rule.is_equivalence asks `{t}`")
+        else:
+            ctx.violation("M7", rets[0], f"Rule.is_equivalence no longer asks `{t}` -- {why}: a rule that is not an equivalence is folded into equivalence paths, matched "
+                          "against equivalence steps and keyed EQUIV")
+    if any("len(self.non_empty_children(" in t and t.endswith("== 1") for t in conj):
+        ctx.ok("M7", "Rule.is_equivalence requires exactly one non-empty child")
+    else:
+        ctx.violation("M7", rets[0], "Rule.is_equivalence must require exactly one non-empty child")
+    ne = P.need_method("AbstractRule", "non_empty_children", own=True)
+    ctx.analysed(ne)
+    gens = [g for g in ast.walk(ne.node) if isinstance(g, (ast.GeneratorExp, ast.ListComp)) and any(isinstance(x, ast.Call) and norm(x.func) == "is_empty" for x in ast.walk(g))]
+    if not gens:
+        raise AnalysisError("M7: AbstractRule.non_empty_children no longer filters with is_empty in a comprehension")
+    for g in gens:
+        it = norm(D.expanded(ne.node, g.generators[0].iter))
+        if it == "self.children" and len(g.generators) == 1:
+            ctx.ok("M7", "non_empty_children filters self.children itself, with multiplicity")
+        else:
+            ctx.violation("M7", g, f"non_empty_children runs over `{it[:50]}` instead of self.children: a child that occurs twice is counted once, so S -> X x X has one "
+                          "non-empty child, is keyed and extracted as the equivalence S -> (X,), a rule nobody made")
